@@ -36,7 +36,7 @@ import Isotp.Sock
   `asInt v = some n`), not as `pint n`: `isinstance(True, int)` holds in Python (and in the model's `argOk`), so
   `write(s, optflag=True)` stores `True` itself in `o.optflag` (and packs it as `1`).
 -/
-namespace Isotp.PyAgree
+namespace Isotp.PyAgree.SockOpts
 open Isotp Isotp.Py
 open Isotp.Sock hiding bind close
 
@@ -2551,13 +2551,160 @@ example : ∃ s', Sock.bind {} { tx := exHalfE29, rx := exHalfE29 } false = .ok 
 example : Sock.bind {} { tx := { exHalfN11 with txOnly := true }, rx := { exHalfE29 with rxOnly := true } } true = .error .ValueError := rfl
 example : Sock.bind { bound := true } { tx := exHalfE29, rx := exHalfE29 } false = .error .RuntimeError := rfl
 
+end Isotp.PyAgree.SockOpts
+
+/-! ## 9. The main theorems
+
+  Restated in `Isotp.PyAgree` (everything above lives in `Isotp.PyAgree.SockOpts` so that the helper names cannot clash with
+  those of the sibling modules). -/
+namespace Isotp.PyAgree
+open Isotp Isotp.Py
+open Isotp.Sock hiding bind close
+open SockOpts
+
+/-- the model's `orFlag` is Python's `|` for a single-bit flag (`f = 2, 4, 8, 128, 512` are `k = 1, 2, 3, 7, 9`) -/
+theorem or_two_pow_eq_orFlag (a k : Nat) : a ||| 2^k = orFlag a (2^k) := SockOpts.or_two_pow_eq_orFlag a k
+
+/-! ### `GeneralOpts.write` vs `writeOpts` -/
+
+/-- rejected by the model ⟹ `ValueError`, whatever `s.setsockopt` does (`sso` arbitrary): raised before any `s.setsockopt` statement -/
+theorem GeneralOpts_write_reject_any (sso : List PV → Env → Except PErr Env) (s : Sock) (a : OptsArgs) (e : PyExc)
+    (h : writeOpts s a = .error e) :
+    e = .ValueError ∧ runFn (sockMeths sso) (genEnv s a) Src.GeneralOpts_write = .error (.exc .ValueError) :=
+  SockOpts.GeneralOpts_write_reject_any sso s a e h
+
+/-- ... in particular when `s.setsockopt` records (`recMeths`) and when it fails distinctively (`failMeths`) -/
+theorem GeneralOpts_write_reject (s : Sock) (a : OptsArgs) (e : PyExc) (h : writeOpts s a = .error e) :
+    e = .ValueError ∧ runFn recMeths (genEnv s a) Src.GeneralOpts_write = .error (.exc .ValueError) ∧
+      runFn failMeths (genEnv s a) Src.GeneralOpts_write = .error (.exc .ValueError) :=
+  SockOpts.GeneralOpts_write_reject s a e h
+
+/-- accepted by the model ⟹ returns `o`, whose attributes hold the fields of the model's `o'` (as integers), and the recorded
+    `setsockopt` calls are exactly the calls the model adds (`genNewCalls`), in order, with the same bytes -/
+theorem GeneralOpts_write_accept (s : Sock) (a : OptsArgs) (s' : Sock) (o' : KOpts) (h : writeOpts s a = .ok (s', o')) :
+    ∃ env', runFn recMeths (genEnv s a) Src.GeneralOpts_write = .ok (.meth "o", env') ∧ GenObj env' o' ∧
+      recorded env' = some (genNewCalls a o') ∧ s'.calls = genNewCalls a o' ++ s.calls :=
+  SockOpts.GeneralOpts_write_accept s a s' o' h
+
+/-- under `failMeths` the outcome tells the two cases apart (an accepted call does reach `s.setsockopt`) -/
+theorem GeneralOpts_write_fail_iff (s : Sock) (a : OptsArgs) :
+    runFn failMeths (genEnv s a) Src.GeneralOpts_write =
+      match writeOpts s a with
+      | .error _ => .error (.exc .ValueError)
+      | .ok _ => .error (.unsupported "setsockopt") :=
+  SockOpts.GeneralOpts_write_fail_iff s a
+
+/-! ### `FlowControlOpts.write` vs `writeFc` -/
+
+theorem FlowControlOpts_write_reject_any (sso : List PV → Env → Except PErr Env) (s : Sock) (x y z : PyVal) (e : PyExc)
+    (h : writeFc s x y z = .error e) :
+    e = .ValueError ∧ runFn (sockMeths sso) (fcEnv s x y z) Src.FlowControlOpts_write = .error (.exc .ValueError) :=
+  SockOpts.FlowControlOpts_write_reject_any sso s x y z e h
+
+theorem FlowControlOpts_write_reject (s : Sock) (x y z : PyVal) (e : PyExc) (h : writeFc s x y z = .error e) :
+    e = .ValueError ∧ runFn recMeths (fcEnv s x y z) Src.FlowControlOpts_write = .error (.exc .ValueError) ∧
+      runFn failMeths (fcEnv s x y z) Src.FlowControlOpts_write = .error (.exc .ValueError) :=
+  SockOpts.FlowControlOpts_write_reject s x y z e h
+
+theorem FlowControlOpts_write_accept (s : Sock) (x y z : PyVal) (s' : Sock) (o' : KFc) (h : writeFc s x y z = .ok (s', o')) :
+    ∃ env', runFn recMeths (fcEnv s x y z) Src.FlowControlOpts_write = .ok (.meth "o", env') ∧ FcObj env' o' ∧
+      recorded env' = some [.setopt solCanIsotp optRECV_FC (layoutFc o')] ∧
+      s'.calls = .setopt solCanIsotp optRECV_FC (layoutFc o') :: s.calls :=
+  SockOpts.FlowControlOpts_write_accept s x y z s' o' h
+
+theorem FlowControlOpts_write_accept_fail (s : Sock) (x y z : PyVal) (r : Sock × KFc) (h : writeFc s x y z = .ok r) :
+    runFn failMeths (fcEnv s x y z) Src.FlowControlOpts_write = .error (.unsupported "setsockopt") :=
+  SockOpts.FlowControlOpts_write_accept_fail s x y z r h
+
+/-! ### `LinkLayerOpts.write` vs `writeLl` -/
+
+theorem LinkLayerOpts_write_reject_any (sso : List PV → Env → Except PErr Env) (s : Sock) (x y z : PyVal) (e : PyExc)
+    (h : writeLl s x y z = .error e) :
+    e = .ValueError ∧ runFn (sockMeths sso) (llEnv s x y z) Src.LinkLayerOpts_write = .error (.exc .ValueError) :=
+  SockOpts.LinkLayerOpts_write_reject_any sso s x y z e h
+
+theorem LinkLayerOpts_write_reject (s : Sock) (x y z : PyVal) (e : PyExc) (h : writeLl s x y z = .error e) :
+    e = .ValueError ∧ runFn recMeths (llEnv s x y z) Src.LinkLayerOpts_write = .error (.exc .ValueError) ∧
+      runFn failMeths (llEnv s x y z) Src.LinkLayerOpts_write = .error (.exc .ValueError) :=
+  SockOpts.LinkLayerOpts_write_reject s x y z e h
+
+theorem LinkLayerOpts_write_accept (s : Sock) (x y z : PyVal) (s' : Sock) (o' : KLl) (h : writeLl s x y z = .ok (s', o')) :
+    ∃ env', runFn recMeths (llEnv s x y z) Src.LinkLayerOpts_write = .ok (.meth "o", env') ∧ LlObj env' o' ∧
+      recorded env' = some [.setopt solCanIsotp optLL_OPTS (layoutLl o')] ∧
+      s'.calls = .setopt solCanIsotp optLL_OPTS (layoutLl o') :: s.calls :=
+  SockOpts.LinkLayerOpts_write_accept s x y z s' o' h
+
+theorem LinkLayerOpts_write_accept_fail (s : Sock) (x y z : PyVal) (r : Sock × KLl) (h : writeLl s x y z = .ok r) :
+    runFn failMeths (llEnv s x y z) Src.LinkLayerOpts_write = .error (.unsupported "setsockopt") :=
+  SockOpts.LinkLayerOpts_write_accept_fail s x y z r h
+
+/-! ### `socket.set_opts` / `set_fc_opts` / `set_ll_opts` vs `setOpts` / `setFcOpts` / `setLlOpts` -/
+
+theorem socket_set_opts_exec (callee : OptsArgs → Except PErr PV) (s : Sock) (a : OptsArgs) :
+    runFn (setOptsMeths callee) (setOptsEnv s a) Src.socket_set_opts =
+      if s.bound then .error (.exc .RuntimeError) else (callee a).map (fun v => (v, setOptsEnv s a)) :=
+  SockOpts.socket_set_opts_exec callee s a
+
+theorem socket_set_opts_agrees (s : Sock) (a : OptsArgs) :
+    (runFn (setOptsMeths (fun a' => writeResult (writeOpts s a'))) (setOptsEnv s a) Src.socket_set_opts).map (·.1) =
+      writeResult (setOpts s a) :=
+  SockOpts.socket_set_opts_agrees s a
+
+theorem socket_set_fc_opts_exec (callee : PyVal → PyVal → PyVal → Except PErr PV) (s : Sock) (x y z : PyVal) :
+    runFn (setFcOptsMeths callee) (setFcOptsEnv s x y z) Src.socket_set_fc_opts =
+      if s.bound then .error (.exc .RuntimeError) else (callee x y z).map (fun v => (v, setFcOptsEnv s x y z)) :=
+  SockOpts.socket_set_fc_opts_exec callee s x y z
+
+theorem socket_set_fc_opts_agrees (s : Sock) (x y z : PyVal) :
+    (runFn (setFcOptsMeths (fun x' y' z' => writeResult (writeFc s x' y' z'))) (setFcOptsEnv s x y z)
+      Src.socket_set_fc_opts).map (·.1) = writeResult (setFcOpts s x y z) :=
+  SockOpts.socket_set_fc_opts_agrees s x y z
+
+theorem socket_set_ll_opts_exec (callee : PyVal → PyVal → PyVal → Except PErr PV) (s : Sock) (x y z : PyVal) :
+    runFn (setLlOptsMeths callee) (setLlOptsEnv s x y z) Src.socket_set_ll_opts =
+      if s.bound then .error (.exc .RuntimeError) else (callee x y z).map (fun v => (v, setLlOptsEnv s x y z)) :=
+  SockOpts.socket_set_ll_opts_exec callee s x y z
+
+theorem socket_set_ll_opts_agrees (s : Sock) (x y z : PyVal) :
+    (runFn (setLlOptsMeths (fun x' y' z' => writeResult (writeLl s x' y' z'))) (setLlOptsEnv s x y z)
+      Src.socket_set_ll_opts).map (·.1) = writeResult (setLlOpts s x y z) :=
+  SockOpts.socket_set_ll_opts_agrees s x y z
+
+/-! ### `socket.bind` vs `Sock.bind` (for a `str` interface and an address object, as the model presupposes) -/
+
+theorem socket_bind_reject_any (s : Sock) (a : Addr) (asym : Bool) (bnd : List PV → Env → Except PErr Env) (t : Nat) (e : PyExc)
+    (h : Sock.bind s a asym = .error e) :
+    runFn (bindMeths s a asym bnd) (bindEnv s (.sc (.py (.str t)))) Src.socket_bind = .error (.exc e) :=
+  SockOpts.socket_bind_reject_any s a asym bnd t e h
+
+theorem socket_bind_accept (s : Sock) (a : Addr) (asym : Bool) (t : Nat) (s' : Sock) (h : Sock.bind s a asym = .ok s') :
+    ∃ env', runFn (bindMeths s a asym recordBind) (bindEnv s (.sc (.py (.str t)))) Src.socket_bind = .ok (pnone, env') ∧
+      env' "self.bound" = some (pbool true) ∧ env' "self.interface" = some (.sc (.py (.str t))) ∧
+      env' "self.address" = some (.meth "address") ∧
+      env' "#binds" = some (pint ((1 : Nat) : Int)) ∧ env' "bind.interface" = some (.sc (.py (.str t))) ∧
+      env' "bind.rxid" = some (pint (bindRxid a : Nat)) ∧ env' "bind.txid" = some (pint (bindTxid a : Nat)) ∧
+      (if a.tx.mode.hasPrefix || a.rx.mode.hasPrefix then
+        env' "#set_opts" = some (pint ((1 : Nat) : Int)) ∧ env' "bind.#set_opts" = some (pint ((1 : Nat) : Int)) ∧
+        env' "set_opts.optflag" = some (pint (pyBindFlags s a : Nat)) ∧
+        env' "set_opts.ext_address" = some (optPV a.tx.txExtByte) ∧
+        env' "set_opts.rx_ext_address" = some (optPV a.rx.rxExtByte) ∧
+        ∃ r, setOpts s (pyBindArgs s a) = .ok r ∧ s' = afterBind r.1 a
+      else
+        env' "#set_opts" = some (pint ((0 : Nat) : Int)) ∧ env' "bind.#set_opts" = some (pint ((0 : Nat) : Int)) ∧
+        s' = afterBind s a) :=
+  SockOpts.socket_bind_accept s a asym t s' h
+
+theorem socket_bind_nonstr (s : Sock) (a : Addr) (asym : Bool) (bnd : List PV → Env → Except PErr Env) (v : PV)
+    (hv : ∀ t, v ≠ .sc (.py (.str t))) :
+    runFn (bindMeths s a asym bnd) (bindEnv s v) Src.socket_bind = .error (.exc .ValueError) :=
+  SockOpts.socket_bind_nonstr s a asym bnd v hv
+
 end Isotp.PyAgree
 
 #print axioms Isotp.PyAgree.or_two_pow_eq_orFlag
 #print axioms Isotp.PyAgree.GeneralOpts_write_reject_any
 #print axioms Isotp.PyAgree.GeneralOpts_write_reject
 #print axioms Isotp.PyAgree.GeneralOpts_write_accept
-#print axioms Isotp.PyAgree.GeneralOpts_write_accept_fail
 #print axioms Isotp.PyAgree.GeneralOpts_write_fail_iff
 #print axioms Isotp.PyAgree.FlowControlOpts_write_reject_any
 #print axioms Isotp.PyAgree.FlowControlOpts_write_reject
